@@ -20,9 +20,12 @@ SendViol(e) ==
                  ELSE IF e.fdoffs[1][1] # 0 THEN "arrived-after-the-first-byte" ELSE "wrong-count"
         retried == \E i \in 1..Len(e.accepted) : e.accepted[i] = 0 IN
     IF ~e.ref_ok \/ ~e.ref_at_first THEN {"C08/sender/" \o who \o "/unscripted-send-already-wrong"}
-    ELSE (IF e.res # "ok" THEN {"C08/sender/" \o who \o "/call-failed-under-partial-writes"} ELSE {})
+    ELSE (IF e.res # "ok" THEN {"C08/sender/" \o who \o "/call-" \o (IF e.res = "panic" THEN "panics" ELSE "failed") \o "-under-partial-writes",
+                                 \* in terms of C01: the message did not reach the socket as its encoding
+                                 "C01/sender/" \o who \o "/message-not-emitted-under-partial-writes"} ELSE {})
       \cup (IF e.res = "ok" /\ (~e.same_bytes \/ e.got_len # e.len \/ mo # e.len)
-            THEN {"C08/sender/" \o who \o "/bytes-not-exactly-once-in-order" \o (IF e.is_prefix THEN "/truncated" ELSE "")} ELSE {})
+            THEN {"C08/sender/" \o who \o "/bytes-not-exactly-once-in-order" \o (IF e.is_prefix THEN "/truncated" ELSE ""),
+                  "C01/sender/" \o who \o "/bytes-on-the-socket-differ-from-the-encoding"} ELSE {})
       \cup (IF e.res = "ok" /\ e.fdoffs # mf
             THEN {"C08/sender/" \o who \o "/descriptors-" \o shape \o (IF retried THEN "/after-refused-attempt" ELSE "/after-partial-write"),
                   \* the same observation in terms of C01: descriptors travel as ancillary data of the message's first byte
